@@ -129,6 +129,13 @@ func (ex *Exec) specApp(sp *Contract, argEs []*Expr, env *Env) Val {
 		unsup("spec %s: result type %s", sp.Name, sp.Result)
 	}
 	app := ts.App("spec|"+sp.Name, rs, flat...)
+	if sp.Name == "iskafka" && rs == SBool {
+		// a nil error contains no kafka.Error
+		key := "spec|iskafka|nil"
+		if !ex.axiomSeenKey(key) {
+			ex.axioms = append(ex.axioms, ts.Not(ts.App("spec|"+sp.Name, rs, ts.Int(0), ts.Int(0))))
+		}
+	}
 	if rt == nil {
 		rt = types.Typ[types.Int]
 	}
